@@ -1,3 +1,156 @@
 // harnesses mounted as child module of agdb/src/db/db_search_handlers.rs
 #[allow(unused_imports)]
 use super::*;
+
+// =============================================================================
+// C16 — the streaming limit / offset handlers used by the unordered
+// breadth-first / depth-first / elements searches.
+//
+// "an offset O and limit L return exactly the elements at positions O to
+//  O+L-1 (clipped to what exists) of the same search without them ... an offset
+//  or limit beyond the end yields a shorter or empty result, never a failure"
+//
+// The handlers need a `&DbImpl` only to call `evaluate_conditions`; with an
+// EMPTY condition list that call never reads `self` (it returns the documented
+// starting value Continue(true)), so the harness passes a reference to an
+// uninitialised `DbImpl<ArrStorage>` (never read, never dropped) — see db_h.rs.
+// Covered: the limit/offset counting for searches WITHOUT conditions; the
+// harness plays the search engine: it calls `process` once per visited element
+// and stops calling after a `Finish` (what SearchImpl does).
+// Handler selection as in `DbImpl::search_from`: LimitHandler only for
+// limit != 0 && offset == 0, OffsetHandler only for offset != 0 && limit == 0,
+// LimitOffsetHandler only for both != 0.
+// =============================================================================
+
+use crate::verif_support::ArrStorage;
+use crate::verif_support::ok;
+
+const C16_CALLS: usize = 5;
+
+fn c16_kind(c: &SearchControl) -> u8 {
+    match c {
+        SearchControl::Continue(_) => 0,
+        SearchControl::Finish(_) => 1,
+        SearchControl::Stop(_) => 2,
+    }
+}
+
+// Drives `h` over up to `n` elements like the search engine does and checks
+// the window [offset, offset + limit) (limit None = unbounded).
+fn c16_drive<H: SearchHandler>(h: &mut H, n: usize, offset: u64, limit: Option<u64>) -> (usize, bool) {
+    let mut visited = 0usize;
+    let mut finished = false;
+    let mut i = 0usize;
+    while i < C16_CALLS {
+        if i < n && !finished {
+            let index: i64 = kani::any();
+            let distance: u64 = kani::any();
+            let c = ok(h.process(GraphIndex(index), distance));
+            let pos = i as u128;
+            let end: Option<u128> = limit.map(|l| offset as u128 + l as u128);
+            let in_window = pos >= offset as u128 && end.map_or(true, |e| pos < e);
+            assert!(c.is_true() == in_window, "element selected outside / dropped inside the window offset..offset+limit");
+            // the search must end exactly with the last element of the window
+            let is_last = end.map_or(false, |e| pos + 1 == e);
+            if is_last {
+                assert!(c16_kind(&c) == 1, "Finish must be returned when the limit is reached");
+                finished = true;
+            } else {
+                assert!(c16_kind(&c) == 0, "without conditions every other element must yield Continue");
+            }
+            visited += 1;
+        }
+        i += 1;
+    }
+    (visited, finished)
+}
+
+//@ id=C16 tier=quick timeout=600 bounds="limit any u64 != 0 (offset == 0: the case LimitHandler is used for); empty condition list (db never read: uninitialised DbImpl); a search visiting 0..=5 elements with symbolic ids/distances" desc="LimitHandler selects exactly the first `limit` visited elements and returns Finish on the limit-th one (the search ends there), for every limit" kernel="LimitHandler::new,LimitHandler::process,DbImpl::evaluate_conditions" args="--no-assertion-reach-checks"
+#[kani::proof]
+#[kani::stub(std::fmt::format, crate::verif_support::fmt_stub)]
+#[kani::stub(crate::DbError::new, crate::verif_support::dberror_new_stub)]
+#[kani::unwind(7)]
+fn c16_limit_handler_window() {
+    let mem = std::mem::MaybeUninit::<DbImpl<ArrStorage>>::uninit();
+    let db: &DbImpl<ArrStorage> = unsafe { &*mem.as_ptr() };
+    let conditions: Vec<QueryCondition> = Vec::new();
+    let limit: u64 = kani::any();
+    kani::assume(limit != 0);
+    let n: usize = kani::any();
+    kani::assume(n <= C16_CALLS);
+    let mut h = LimitHandler::new(limit, db, &conditions);
+    let (visited, finished) = c16_drive(&mut h, n, 0, Some(limit));
+    kani::cover!(finished && visited == 3, "limit 3 reached, search ended early");
+    kani::cover!(!finished && visited == 5, "limit beyond the end of the search");
+    kani::cover!(limit == u64::MAX, "maximal limit");
+    kani::cover!(true, "end of harness reachable");
+    std::mem::forget(conditions);
+}
+
+//@ id=C16 tier=quick timeout=600 bounds="offset any u64 != 0 (limit == 0: the case OffsetHandler is used for); empty condition list (db never read); a search visiting 0..=5 elements" desc="OffsetHandler drops exactly the first `offset` visited elements, selects all later ones and never ends the search, for every offset (offset beyond the end: empty result, no failure)" kernel="OffsetHandler::new,OffsetHandler::process,DbImpl::evaluate_conditions" args="--no-assertion-reach-checks"
+#[kani::proof]
+#[kani::stub(std::fmt::format, crate::verif_support::fmt_stub)]
+#[kani::stub(crate::DbError::new, crate::verif_support::dberror_new_stub)]
+#[kani::unwind(7)]
+fn c16_offset_handler_window() {
+    let mem = std::mem::MaybeUninit::<DbImpl<ArrStorage>>::uninit();
+    let db: &DbImpl<ArrStorage> = unsafe { &*mem.as_ptr() };
+    let conditions: Vec<QueryCondition> = Vec::new();
+    let offset: u64 = kani::any();
+    kani::assume(offset != 0);
+    let n: usize = kani::any();
+    kani::assume(n <= C16_CALLS);
+    let mut h = OffsetHandler::new(offset, db, &conditions);
+    let (visited, finished) = c16_drive(&mut h, n, offset, None);
+    assert!(!finished && visited == n, "OffsetHandler must never end the search");
+    kani::cover!(offset == 2 && n == 5, "offset inside the result");
+    kani::cover!(offset > 5 && n == 5, "offset beyond the end");
+    kani::cover!(offset == u64::MAX, "maximal offset");
+    kani::cover!(true, "end of harness reachable");
+    std::mem::forget(conditions);
+}
+
+//@ id=C16 tier=quick timeout=600 bounds="limit, offset any u64 != 0 with limit + offset <= u64::MAX (no overflow: see c16_limit_offset_handler_any_u64); empty condition list (db never read); a search visiting 0..=5 elements" desc="LimitOffsetHandler selects exactly the visited elements at positions offset..offset+limit-1 and returns Finish on the last of them" kernel="LimitOffsetHandler::new,LimitOffsetHandler::process,DbImpl::evaluate_conditions" args="--no-assertion-reach-checks"
+#[kani::proof]
+#[kani::stub(std::fmt::format, crate::verif_support::fmt_stub)]
+#[kani::stub(crate::DbError::new, crate::verif_support::dberror_new_stub)]
+#[kani::unwind(7)]
+fn c16_limit_offset_handler_window() {
+    let mem = std::mem::MaybeUninit::<DbImpl<ArrStorage>>::uninit();
+    let db: &DbImpl<ArrStorage> = unsafe { &*mem.as_ptr() };
+    let conditions: Vec<QueryCondition> = Vec::new();
+    let limit: u64 = kani::any();
+    let offset: u64 = kani::any();
+    kani::assume(limit != 0 && offset != 0);
+    kani::assume(limit.checked_add(offset).is_some());
+    let n: usize = kani::any();
+    kani::assume(n <= C16_CALLS);
+    let mut h = LimitOffsetHandler::new(limit, offset, db, &conditions);
+    let (visited, finished) = c16_drive(&mut h, n, offset, Some(limit));
+    kani::cover!(finished && offset == 1 && limit == 2 && visited == 3, "window 1..3 completed");
+    kani::cover!(!finished && visited == 5 && offset == 4, "window cut by the end of the search");
+    kani::cover!(!finished && visited == 5 && offset > 5, "offset beyond the end");
+    kani::cover!(true, "end of harness reachable");
+    std::mem::forget(conditions);
+}
+
+//@ id=C16 tier=quick timeout=600 bounds="limit, offset ANY u64 != 0 (including limit + offset > u64::MAX); empty condition list (db never read); a search visiting 0..=5 elements" desc="LimitOffsetHandler never fails and selects positions offset..offset+limit-1 for every limit/offset, also when offset + limit exceeds u64::MAX (then: everything from offset on)" kernel="LimitOffsetHandler::new,LimitOffsetHandler::process" args="--no-assertion-reach-checks"
+#[kani::proof]
+#[kani::stub(std::fmt::format, crate::verif_support::fmt_stub)]
+#[kani::stub(crate::DbError::new, crate::verif_support::dberror_new_stub)]
+#[kani::unwind(7)]
+fn c16_limit_offset_handler_any_u64() {
+    let mem = std::mem::MaybeUninit::<DbImpl<ArrStorage>>::uninit();
+    let db: &DbImpl<ArrStorage> = unsafe { &*mem.as_ptr() };
+    let conditions: Vec<QueryCondition> = Vec::new();
+    let limit: u64 = kani::any();
+    let offset: u64 = kani::any();
+    kani::assume(limit != 0 && offset != 0);
+    let n: usize = kani::any();
+    kani::assume(n <= C16_CALLS);
+    let mut h = LimitOffsetHandler::new(limit, offset, db, &conditions);
+    let (visited, finished) = c16_drive(&mut h, n, offset, Some(limit));
+    kani::cover!(limit.checked_add(offset).is_none() && visited == 5 && offset == 2, "offset + limit beyond u64::MAX, offset inside the result");
+    kani::cover!(true, "end of harness reachable");
+    std::mem::forget(conditions);
+}
